@@ -379,6 +379,27 @@ func checkReaderDiscipline(c *Ctx, p *packages.Package) {
 		})
 		return reads
 	}
+	// a test of the cursor against another field of the reader (the recorded end), wherever it stands
+	condOnCursorAndField := func(e ast.Expr) bool {
+		hasFwd, hasOther := false, false
+		ast.Inspect(e, func(m ast.Node) bool {
+			if b, ok := m.(*ast.BinaryExpr); ok && (b.Op == token.EQL || b.Op == token.GEQ) {
+				l, lok := ast.Unparen(b.X).(*ast.SelectorExpr)
+				r, rok := ast.Unparen(b.Y).(*ast.SelectorExpr)
+				if lok && rok {
+					for _, pr := range [][2]*ast.SelectorExpr{{l, r}, {r, l}} {
+						if pr[0].Sel.Name == fwdName && pr[1].Sel.Name != fwdName && pr[1].Sel.Name != bufName {
+							if v, isVar := info.Uses[pr[1].Sel].(*types.Var); isVar && v.IsField() {
+								hasFwd, hasOther = true, true
+							}
+						}
+					}
+				}
+			}
+			return true
+		})
+		return hasFwd && hasOther
+	}
 	ast.Inspect(nextB.Body, func(n ast.Node) bool {
 		switch x := n.(type) {
 		case *ast.IfStmt:
@@ -389,7 +410,7 @@ func checkReaderDiscipline(c *Ctx, p *packages.Package) {
 					if readsByte(cur.Cond) {
 						eofByValue = types.ExprString(cur.Cond)
 					}
-					if depth >= 2 {
+					if depth >= 2 || condOnCursorAndField(cur.Cond) {
 						eofOK = true
 					}
 				}
@@ -420,6 +441,11 @@ func checkReaderDiscipline(c *Ctx, p *packages.Package) {
 				}
 				if k >= 2 {
 					eofOK = true
+				}
+				for _, e := range cl.List {
+					if condOnCursorAndField(e) {
+						eofOK = true
+					}
 				}
 			}
 			return false
@@ -745,6 +771,279 @@ func checkReaderDiscipline(c *Ctx, p *packages.Package) {
 		default:
 			_ = badPos
 			c.Fail("R19.4", key, token.NoPos, fmt.Sprintf("%d of %d updates of the load guard are made whether or not the load succeeded: a load that meets the end of the source latches io.EOF; when the byte before it was a look-ahead, Retract clears the latch, the byte is read again, the load is not asked for again, io.EOF is never latched again and the lexer goes on into stale buffer contents", nAdv-condAdv, nAdv), "an input whose length is a multiple of the buffer half and whose last character is a retracted look-ahead (e.g. a final newline after a token)")
+		}
+	}
+	// (b2'') an empty load ends the input: a fill-or-end read that returns no byte at all reports io.EOF. A loader either hands
+	// that on as its error (then next() latches it), or it records the end by position, which is then the very position forward
+	// has when the load was asked for: in that case the position test must follow the load on the same path.
+	{
+		endFields := map[string]bool{}
+		type loaderFacts struct {
+			fd        *ast.FuncDecl
+			tolerates int // 1 yes, 0 no, -1 unknown
+		}
+		var facts []loaderFacts
+		AllFuncDecls(p, func(fd *ast.FuncDecl) {
+			if fd.Recv == nil || recvName(fd.Recv.List[0].Type) != recv || fd.Body == nil || !loaders[fd.Name.Name] {
+				return
+			}
+			var errObj types.Object
+			ast.Inspect(fd.Body, func(n ast.Node) bool {
+				as, ok := n.(*ast.AssignStmt)
+				if !ok || len(as.Rhs) != 1 {
+					return true
+				}
+				call, ok := ast.Unparen(as.Rhs[0]).(*ast.CallExpr)
+				if !ok {
+					return true
+				}
+				if fo, ok := objOf(info, call.Fun).(*types.Func); ok && fo.Pkg() != nil && fo.Pkg().Path() == "io" && (fo.Name() == "ReadFull" || fo.Name() == "ReadAtLeast") && len(as.Lhs) == 2 {
+					if id, ok := as.Lhs[1].(*ast.Ident); ok {
+						if o := info.Defs[id]; o != nil {
+							errObj = o
+						} else {
+							errObj = info.Uses[id]
+						}
+					}
+				}
+				return true
+			})
+			// fields assigned in a loader (other than buffer and latch): where the end of the input is recorded
+			ast.Inspect(fd.Body, func(n ast.Node) bool {
+				if as, ok := n.(*ast.AssignStmt); ok {
+					for _, l := range as.Lhs {
+						if sel, ok := l.(*ast.SelectorExpr); ok && sel.Sel.Name != bufName && sel.Sel.Name != latch && sel.Sel.Name != fwdName {
+							if v, isVar := info.Uses[sel.Sel].(*types.Var); isVar && v.IsField() {
+								endFields[sel.Sel.Name] = true
+							}
+						}
+					}
+				}
+				return true
+			})
+			if errObj == nil {
+				return
+			}
+			isErrVar := func(e ast.Expr) bool {
+				id, ok := ast.Unparen(e).(*ast.Ident)
+				return ok && info.Uses[id] == errObj
+			}
+			ioName := func(e ast.Expr) string {
+				if o := objOf(info, ast.Unparen(e)); o != nil && o.Pkg() != nil && o.Pkg().Path() == "io" {
+					return o.Name()
+				}
+				return ""
+			}
+			// the value of a condition when err is io.EOF: 1, 0, -1 (unknown)
+			var eval func(e ast.Expr) int
+			eval = func(e ast.Expr) int {
+				switch x := ast.Unparen(e).(type) {
+				case *ast.UnaryExpr:
+					if x.Op == token.NOT {
+						if v := eval(x.X); v >= 0 {
+							return 1 - v
+						}
+					}
+				case *ast.BinaryExpr:
+					switch x.Op {
+					case token.LAND:
+						a, b := eval(x.X), eval(x.Y)
+						if a == 0 || b == 0 {
+							return 0
+						}
+						if a == 1 && b == 1 {
+							return 1
+						}
+					case token.LOR:
+						a, b := eval(x.X), eval(x.Y)
+						if a == 1 || b == 1 {
+							return 1
+						}
+						if a == 0 && b == 0 {
+							return 0
+						}
+					case token.EQL, token.NEQ:
+						other := x.Y
+						if !isErrVar(x.X) {
+							if !isErrVar(x.Y) {
+								return -1
+							}
+							other = x.X
+						}
+						eq := -1
+						switch {
+						case isNilExpr(info, other):
+							eq = 0
+						case ioName(other) == "EOF":
+							eq = 1
+						case ioName(other) != "":
+							eq = 0
+						}
+						if eq < 0 {
+							return -1
+						}
+						if x.Op == token.NEQ {
+							return 1 - eq
+						}
+						return eq
+					}
+				case *ast.CallExpr:
+					if fo, ok := objOf(info, x.Fun).(*types.Func); ok && fo.Pkg() != nil && fo.Pkg().Path() == "errors" && fo.Name() == "Is" && len(x.Args) == 2 && isErrVar(x.Args[0]) {
+						switch ioName(x.Args[1]) {
+						case "EOF":
+							return 1
+						case "":
+							return -1
+						default:
+							return 0
+						}
+					}
+				}
+				return -1
+			}
+			returnsErr := func(list []ast.Stmt) bool {
+				for _, st := range list {
+					if r, ok := st.(*ast.ReturnStmt); ok {
+						for _, e := range r.Results {
+							found := false
+							ast.Inspect(e, func(m ast.Node) bool {
+								if id, ok := m.(*ast.Ident); ok && info.Uses[id] == errObj {
+									found = true
+								}
+								return true
+							})
+							if found {
+								return true
+							}
+						}
+					}
+				}
+				return false
+			}
+			tol := 1
+			sawGuard := false
+			ast.Inspect(fd.Body, func(n ast.Node) bool {
+				switch x := n.(type) {
+				case *ast.IfStmt:
+					if returnsErr(x.Body.List) {
+						sawGuard = true
+						switch eval(x.Cond) {
+						case 1:
+							tol = 0
+						case -1:
+							if tol == 1 {
+								tol = -1
+							}
+						}
+					}
+				case *ast.SwitchStmt:
+					if x.Tag != nil && isErrVar(x.Tag) {
+						var deflt, match *ast.CaseClause
+						for _, cc := range x.Body.List {
+							cl := cc.(*ast.CaseClause)
+							if cl.List == nil {
+								deflt = cl
+							}
+							for _, v := range cl.List {
+								if ioName(v) == "EOF" {
+									match = cl
+								}
+							}
+						}
+						if match == nil {
+							match = deflt
+						}
+						if match != nil {
+							sawGuard = true
+							if returnsErr(match.Body) {
+								tol = 0
+							}
+						}
+					}
+				}
+				return true
+			})
+			if !sawGuard {
+				tol = -1
+			}
+			facts = append(facts, loaderFacts{fd, tol})
+		})
+		for _, lf := range facts {
+			key := "reader: a load that returns no byte ends the input (" + lf.fd.Name.Name + ")"
+			switch lf.tolerates {
+			case 0:
+				c.Pass("R19.4", key, token.NoPos, "io.EOF of the fill-or-end read is returned as the loader's error, which next() latches")
+			case -1:
+				c.Undecided("R19.4", key, token.NoPos, "how the loader treats io.EOF of its read could not be read off its conditions")
+			case 1:
+				// the end is recorded by position: every call on next()'s path must be followed by the position test
+				nCalls, covered := 0, 0
+				for _, fdl := range reachFns {
+					var stack []ast.Node
+					ast.Inspect(fdl.Body, func(n ast.Node) bool {
+						if n == nil {
+							stack = stack[:len(stack)-1]
+							return true
+						}
+						stack = append(stack, n)
+						call, ok := n.(*ast.CallExpr)
+						if !ok {
+							return true
+						}
+						sel, ok := call.Fun.(*ast.SelectorExpr)
+						if !ok || sel.Sel.Name != lf.fd.Name.Name {
+							return true
+						}
+						nCalls++
+						anc := append([]ast.Node{}, stack...)
+						found := false
+						ast.Inspect(fdl.Body, func(m ast.Node) bool {
+							ifs, ok := m.(*ast.IfStmt)
+							if !ok || ifs.Pos() < call.End() {
+								return true
+							}
+							hasFwd, hasEnd := false, false
+							ast.Inspect(ifs.Cond, func(k ast.Node) bool {
+								if s2, ok := k.(*ast.SelectorExpr); ok {
+									if s2.Sel.Name == fwdName {
+										hasFwd = true
+									}
+									if endFields[s2.Sel.Name] {
+										hasEnd = true
+									}
+								}
+								return true
+							})
+							if !hasFwd || !hasEnd {
+								return true
+							}
+							// not in the else part of an if whose body holds the call
+							for _, a := range anc {
+								if ai, ok := a.(*ast.IfStmt); ok && ai.Else != nil && ai.Body.Pos() <= call.Pos() && call.End() <= ai.Body.End() &&
+									ai.Else.Pos() <= ifs.Pos() && ifs.End() <= ai.Else.End() {
+									return true
+								}
+							}
+							found = true
+							return true
+						})
+						if found {
+							covered++
+						}
+						return true
+					})
+				}
+				if nCalls == 0 {
+					c.Undecided("R19.4", key, token.NoPos, "the loader records an empty load as the end by position, and no call of it was found on next()'s path")
+				} else {
+					c.Check("R19.4", key, token.NoPos, covered == nCalls,
+						fmt.Sprintf("%s takes io.EOF of its read for a short read and records the end by position; that position is where forward stands when the load is asked for, and after %d of %d calls on next()'s path forward is not compared with it: the end of an input that stops exactly at a half boundary is never latched, and stale buffer contents are lexed", lf.fd.Name.Name, nCalls-covered, nCalls),
+						"an input whose length is an exact multiple of the buffer half (4096, 8192, ...)")
+				}
+			}
+		}
+		if len(facts) == 0 {
+			c.Undecided("R19.4", "reader: a load that returns no byte ends the input", token.NoPos, "no loader built on io.ReadFull / io.ReadAtLeast was found")
 		}
 	}
 	// (b3) ring invariant: when forward arrives at len(buff) it is set back to 0 on every path (Lexeme and Retract walk the ring modulo len(buff))
